@@ -972,6 +972,21 @@ class Gen(object):
 
         kind = target.k
 
+        if kind in ('SEQUENCE OF', 'SET OF'):
+            # A list of enumeration items (the one list default the parser
+            # reads).
+            element = target.element
+
+            while element is not None and element.k == 'REF':
+                element = None if element.recursive else element.target
+
+            if element is None or element.k != 'ENUMERATED' or target.sized:
+                return None
+
+            picked = [n for n in element.names if rng.random() < 0.5]
+
+            return '{ ' + ', '.join(picked or element.names[:1]) + ' }'
+
         if kind == 'BOOLEAN':
             return rng.choice(['TRUE', 'FALSE'])
         elif kind == 'REAL':
@@ -1252,7 +1267,7 @@ class Gen(object):
         text = '{}{} OF {}'.format(base, size, element.text)
 
         return Node(k=kind, text=text, utags=frozenset([UNIVERSAL[kind]]),
-                    zero=zero,
+                    zero=zero, element=element, sized=bool(size),
                     recursive_inside=bool(element.recursive
                                           or element.recursive_inside))
 
